@@ -311,6 +311,12 @@ func randUser(rng *rand.Rand, canary string, hostileStrings bool) *sim.User {
 		}
 		u.Custom = append(u.Custom, c)
 	}
+	// now and then a custom attribute is named like one of the standard ones (with the same or another name format):
+	// it is stated beside the standard attribute, it does not replace it
+	if rng.Intn(8) == 0 {
+		n := []string{"Email", "SurName", "FirstName", "FullName", "UserName", "UserID"}[rng.Intn(6)]
+		u.Custom = append(u.Custom, sim.Custom{Name: n, Format: []string{basicFormat, "urn:oasis:names:tc:SAML:2.0:attrname-format:uri", ""}[rng.Intn(3)], Values: []string{canary + "samename" + randHex(rng, 3)}})
+	}
 	return u
 }
 
